@@ -107,3 +107,37 @@ Proof.
 Qed.
 
 End ArchiveModeProofs.
+
+(* ==================================================================================== *)
+(* the archive stream as a source file: the compression decision *)
+Lemma archive_stream_consts_ok :
+  Consts.archive_reader_file_nil = true /\ Consts.archive_probe_guard_fires = true /\
+  Consts.archive_probe_nofile_compress = true.
+Proof. repeat split; reflexivity. Qed.
+
+(* C15_stream_compress: sendCompressFlag never fails on an archive stream, and whenever the
+   configuration and the size leave the decision open it is "compress" (the stream is not an
+   argument of the decision: it is neither read nor moved) *)
+Theorem amo_archive_compress_ok proto ctype binary size :
+  amo_archive_compress proto ctype binary size <> AmoCompErr /\
+  (forall c, amo_archive_compress proto ctype binary size = AmoCompProbed c -> c = true).
+Proof.
+  unfold amo_archive_compress. destruct archive_stream_consts_ok as (-> & -> & ->).
+  destruct (amo_rules_eval Consts.tr_compress_rules proto ctype binary size) as [[|] c]; cbn [andb].
+  - split; [discriminate|intros c' H; discriminate].
+  - split; [discriminate|intros c' H; injection H as <-; reflexivity].
+Qed.
+
+(* with the decision list of the current source: compression "auto", protocol >= 3, an announced
+   stream size of 128 KiB or more - the decision is left to the probe, which says "compress" *)
+Lemma amo_archive_compress_auto_large proto binary size :
+  3 <= proto -> 131072 <= size ->
+  amo_archive_compress proto Consts.tr_compress_auto binary size = AmoCompProbed true.
+Proof.
+  intros Hp Hs. unfold amo_archive_compress. destruct archive_stream_consts_ok as (-> & -> & ->).
+  unfold Consts.tr_compress_rules, Consts.tr_compress_auto.
+  cbn [amo_rules_eval amo_rule_cond N.eqb Pos.eqb].
+  destruct (N.ltb_spec proto 3); [lia|].
+  destruct (N.ltb_spec size 512); [lia|]. destruct (N.ltb_spec size 131072); [lia|].
+  reflexivity.
+Qed.
